@@ -366,105 +366,140 @@ func r08d(c *core.Ctx) {
 		return
 	}
 	n := 0
-	for _, ret := range returnsOf(get) {
-		rs := core.ReturnResults(ret)
-		if len(rs) != 3 || core.IsNilConst(rs[0]) {
-			continue
+	// the hit may be produced by Get itself or by lookup helpers of the package it forwards (one per tier): the
+	// analysis runs in whichever function decodes the entry; a return that passes on all three results of such a
+	// helper is a forwarder
+	top := get
+	var hitFns []*ssa.Function
+	for _, hf := range helperReach(top, 1) {
+		if hf.Parent() == nil && hf.Signature.Results().Len() == 3 && strings.HasSuffix(hf.Signature.Results().At(0).Type().String(), "dnsmsg.Msg") {
+			hitFns = append(hitFns, hf)
 		}
-		for _, o := range core.Origins(rs[0], core.OriginOpts{}) {
-			if core.IsNilConst(o) {
+	}
+	isHitFn := func(f *ssa.Function) bool {
+		for _, h := range hitFns {
+			if h == f {
+				return true
+			}
+		}
+		return false
+	}
+	for _, get := range hitFns {
+		for _, ret := range returnsOf(get) {
+			rs := core.ReturnResults(ret)
+			if len(rs) != 3 || core.IsNilConst(rs[0]) {
 				continue
 			}
-			n++
-			key := fmt.Sprintf("hit-aged#%d", n)
-			// a SubtractTTL(o, uint32(time.Since(ST).Seconds())) call dominates the return, with ST the returned storedTime;
-			// the call, or the computation of its delta, may sit in a helper of the same package
-			var subAt ssa.Instruction // the call in Get
-			var delta ssa.Value       // the delta argument of SubtractTTL
-			var sub1 map[*ssa.Parameter]ssa.Value
-			for _, call := range core.Calls(get) {
-				cc, ok := call.(*ssa.Call)
-				if !ok || !core.InstrDominates(call, ret) {
+			for _, o := range core.Origins(rs[0], core.OriginOpts{}) {
+				if core.IsNilConst(o) {
 					continue
 				}
-				callee := core.StaticCallee(call)
-				if callee == sub && derivesFrom(cc.Call.Args[0], o) {
-					subAt, delta, sub1 = cc, cc.Call.Args[1], nil
-				} else if callee != nil && callee.Pkg == get.Pkg && callee.Blocks != nil {
-					// helper(m, …) that applies SubtractTTL to its parameter on every path
-					for _, hc := range core.Calls(callee) {
-						hcc, ok := hc.(*ssa.Call)
-						if !ok || core.StaticCallee(hc) != sub {
-							continue
-						}
-						if core.Reach(callee, nil, core.IsReturn, func(in ssa.Instruction) bool { return in == ssa.Instruction(hcc) }) != nil {
-							continue
-						}
-						binds := map[*ssa.Parameter]ssa.Value{}
-						for k, p := range callee.Params {
-							if k < len(cc.Call.Args) {
-								binds[p] = cc.Call.Args[k]
+				// forwarded from a lookup helper: all three results of the same call
+				if ex, isEx := o.(*ssa.Extract); isEx {
+					if hc, isCall := ex.Tuple.(*ssa.Call); isCall && get == top && isHitFn(core.StaticCallee(hc)) && core.StaticCallee(hc) != top {
+						fwd := true
+						for k := 0; k < 3; k++ {
+							e2, ok2 := core.Unspill(rs[k]).(*ssa.Extract)
+							if !ok2 || e2.Tuple != ex.Tuple || e2.Index != k {
+								fwd = false
 							}
 						}
-						if p, isP := core.Strip(hcc.Call.Args[0]).(*ssa.Parameter); isP && binds[p] != nil && derivesFrom(binds[p], o) {
-							subAt, delta, sub1 = cc, hcc.Call.Args[1], binds
-						}
+						n++
+						c.Check(fwd, fmt.Sprintf("hit-forwarded#%d", n), ret.Pos(), get, "a hit produced by a lookup helper is returned with that helper's own storedTime and expireTime", core.Expr(rs[1])+", "+core.Expr(rs[2]))
+						continue
 					}
 				}
-			}
-			if subAt == nil {
-				c.Bad(key, ret.Pos(), get, "a cache hit is returned only after SubtractTTL was applied to that message", "no dominating SubtractTTL on "+core.Expr(o))
-				continue
-			}
-			// delta = uint32(time.Since(X).Seconds()), possibly computed by a helper from its parameter
-			sinceArg := func(v ssa.Value) ssa.Value {
-				cv, ok := v.(*ssa.Convert)
-				if !ok {
-					return nil
-				}
-				sec, ok := cv.X.(*ssa.Call)
-				if !ok || core.CallName(sec) != "(time.Duration).Seconds" {
-					return nil
-				}
-				since, ok := sec.Call.Args[0].(*ssa.Call)
-				if !ok || core.CallName(since) != "time.Since" {
-					return nil
-				}
-				return since.Call.Args[0]
-			}
-			resolve := func(v ssa.Value, binds map[*ssa.Parameter]ssa.Value) ssa.Value {
-				if p, isP := core.Strip(v).(*ssa.Parameter); isP && binds != nil && binds[p] != nil {
-					return binds[p]
-				}
-				return v
-			}
-			x := sinceArg(delta)
-			if x != nil {
-				x = resolve(x, sub1)
-			} else if dc, isCall := delta.(*ssa.Call); isCall {
-				if h := core.StaticCallee(dc); h != nil && h.Pkg == get.Pkg && h.Blocks != nil {
-					rets := returnsOf(h)
-					if len(rets) == 1 {
-						if hx := sinceArg(rets[0].Results[0]); hx != nil {
+				n++
+				key := fmt.Sprintf("hit-aged#%d", n)
+				// a SubtractTTL(o, uint32(time.Since(ST).Seconds())) call dominates the return, with ST the returned storedTime;
+				// the call, or the computation of its delta, may sit in a helper of the same package
+				var subAt ssa.Instruction // the call in Get
+				var delta ssa.Value       // the delta argument of SubtractTTL
+				var sub1 map[*ssa.Parameter]ssa.Value
+				for _, call := range core.Calls(get) {
+					cc, ok := call.(*ssa.Call)
+					if !ok || !core.InstrDominates(call, ret) {
+						continue
+					}
+					callee := core.StaticCallee(call)
+					if callee == sub && derivesFrom(cc.Call.Args[0], o) {
+						subAt, delta, sub1 = cc, cc.Call.Args[1], nil
+					} else if callee != nil && callee.Pkg == get.Pkg && callee.Blocks != nil {
+						// helper(m, …) that applies SubtractTTL to its parameter on every path
+						for _, hc := range core.Calls(callee) {
+							hcc, ok := hc.(*ssa.Call)
+							if !ok || core.StaticCallee(hc) != sub {
+								continue
+							}
+							if core.Reach(callee, nil, core.IsReturn, func(in ssa.Instruction) bool { return in == ssa.Instruction(hcc) }) != nil {
+								continue
+							}
 							binds := map[*ssa.Parameter]ssa.Value{}
-							for k, p := range h.Params {
-								if k < len(dc.Call.Args) {
-									binds[p] = resolve(dc.Call.Args[k], sub1)
+							for k, p := range callee.Params {
+								if k < len(cc.Call.Args) {
+									binds[p] = cc.Call.Args[k]
 								}
 							}
-							x = resolve(hx, binds)
+							if p, isP := core.Strip(hcc.Call.Args[0]).(*ssa.Parameter); isP && binds[p] != nil && derivesFrom(binds[p], o) {
+								subAt, delta, sub1 = cc, hcc.Call.Args[1], binds
+							}
 						}
 					}
 				}
+				if subAt == nil {
+					c.Bad(key, ret.Pos(), get, "a cache hit is returned only after SubtractTTL was applied to that message", "no dominating SubtractTTL on "+core.Expr(o))
+					continue
+				}
+				// delta = uint32(time.Since(X).Seconds()), possibly computed by a helper from its parameter
+				sinceArg := func(v ssa.Value) ssa.Value {
+					cv, ok := v.(*ssa.Convert)
+					if !ok {
+						return nil
+					}
+					sec, ok := cv.X.(*ssa.Call)
+					if !ok || core.CallName(sec) != "(time.Duration).Seconds" {
+						return nil
+					}
+					since, ok := sec.Call.Args[0].(*ssa.Call)
+					if !ok || core.CallName(since) != "time.Since" {
+						return nil
+					}
+					return since.Call.Args[0]
+				}
+				resolve := func(v ssa.Value, binds map[*ssa.Parameter]ssa.Value) ssa.Value {
+					if p, isP := core.Strip(v).(*ssa.Parameter); isP && binds != nil && binds[p] != nil {
+						return binds[p]
+					}
+					return v
+				}
+				x := sinceArg(delta)
+				if x != nil {
+					x = resolve(x, sub1)
+				} else if dc, isCall := delta.(*ssa.Call); isCall {
+					if h := core.StaticCallee(dc); h != nil && h.Pkg == get.Pkg && h.Blocks != nil {
+						rets := returnsOf(h)
+						if len(rets) == 1 {
+							if hx := sinceArg(rets[0].Results[0]); hx != nil {
+								binds := map[*ssa.Parameter]ssa.Value{}
+								for k, p := range h.Params {
+									if k < len(dc.Call.Args) {
+										binds[p] = resolve(dc.Call.Args[k], sub1)
+									}
+								}
+								x = resolve(hx, binds)
+							}
+						}
+					}
+				}
+				st := core.Expr(core.Unspill(rs[1]))
+				got := "?"
+				if x != nil {
+					got = core.Expr(core.Unspill(x))
+				}
+				c.Check(x != nil && got == st, key, subAt.Pos(), get, "delta = uint32(time.Since(storedTime).Seconds()) of the same storedTime that is returned for the entry", "delta from "+got+" storedTime="+st)
+				// m is produced by unpackCacheMsg of the backend value of that same lookup
+				c.Check(strings.HasPrefix(core.Expr(o), "router.unpackCacheMsg("), key+"-private", ret.Pos(), get, "the hit is a message freshly decoded by unpackCacheMsg (private copy)", core.Expr(o))
 			}
-			st := core.Expr(core.Unspill(rs[1]))
-			got := "?"
-			if x != nil {
-				got = core.Expr(core.Unspill(x))
-			}
-			c.Check(x != nil && got == st, key, subAt.Pos(), get, "delta = uint32(time.Since(storedTime).Seconds()) of the same storedTime that is returned for the entry", "delta from "+got+" storedTime="+st)
-			// m is produced by unpackCacheMsg of the backend value of that same lookup
-			c.Check(strings.HasPrefix(core.Expr(o), "router.unpackCacheMsg("), key+"-private", ret.Pos(), get, "the hit is a message freshly decoded by unpackCacheMsg (private copy)", core.Expr(o))
 		}
 	}
 	if n < 2 {
